@@ -103,5 +103,5 @@ func VC12_Linear_Thorough() {
 	vc12(tNetCfg{nIn: 2, nBias: 1, nHid: 2, nOut: 1, atype: neatmath.LinearActivation})
 }
 func VC12_Uninterpreted_Thorough() {
-	vc12(tNetCfg{nIn: 1, nBias: 1, nHid: 2, nOut: 2, symTypes: true})
+	vc12(tNetCfg{nIn: 1, nBias: 1, nHid: 2, nOut: 1, symTypes: true})
 }
